@@ -83,8 +83,10 @@ func (stream *receiverStream) processRTP(now time.Time, pktHeader *rtp.Header) {
 
 		// compute jitter
 		// https://tools.ietf.org/html/rfc3550#page-39
+		// the timestamp difference is taken modulo 2^32 as a signed value, so that a stream
+		// crossing the 32-bit RTP timestamp wrap does not produce a jitter sample of 2^32
 		D := now.Sub(stream.lastRTPTimeTime).Seconds()*stream.clockRate -
-			(float64(pktHeader.Timestamp) - float64(stream.lastRTPTimeRTP))
+			float64(int32(pktHeader.Timestamp-stream.lastRTPTimeRTP)) //nolint:gosec // G115
 		if D < 0 {
 			D = -D
 		}
